@@ -307,7 +307,73 @@ func c17Check(roots []ast.Node, many bool, pruneList []int, k int, add func(sig,
 			}
 		}
 	}
+	// a traversal that the consumer leaves by a panic (recovered by the caller) must leave nothing behind either: the next
+	// traversal - on the same goroutine, so it meets whatever the aborted one left in a pool - visits exactly its own nodes
+	if k > 0 && k < len(full) {
+		type abort struct{}
+		for _, how := range []string{"Inspect", "Walk"} {
+			seen := 0
+			pn := callGuard(func() {
+				f := func(n ast.Node) bool {
+					seen++
+					if seen >= k {
+						panic(abort{})
+					}
+					return true
+				}
+				switch {
+				case how == "Inspect" && many:
+					ast.InspectMany(roots, f)
+				case how == "Inspect":
+					ast.Inspect(roots[0], f)
+				case many:
+					ast.WalkMany(roots, panicVisitor{f})
+				default:
+					ast.Walk(roots[0], panicVisitor{f})
+				}
+			})
+			if _, ok := pn.(abort); !ok {
+				add("C17 aborted-walk panic-lost", fmt.Sprintf("a consumer panic at visit #%d of %s did not reach the caller unchanged: %v", k, how, pn))
+				return
+			}
+			var after []ast.Node
+			h := func(n ast.Node) bool { after = append(after, n); return true }
+			if p := callGuard(func() {
+				if many {
+					ast.InspectMany(roots, h)
+				} else {
+					ast.Inspect(roots[0], h)
+				}
+			}); p != nil {
+				add("C17 panic Inspect after-aborted-walk "+panicKind(p), fmt.Sprint(p))
+				return
+			}
+			if len(after) != len(full) {
+				add("C17 after-aborted-walk visit-count", fmt.Sprintf("after a %s that the consumer left by a panic at visit #%d, a full Inspect visited %d nodes, expected %d", how, k, len(after), len(full)))
+				return
+			}
+			for i := range after {
+				if !sameNode(after[i], full[i].node) {
+					add("C17 after-aborted-walk order", fmt.Sprintf("after an aborted %s, Inspect visit #%d is %s, expected %s", how, i, astx.TypeName(after[i]), typeAt(full, i)))
+					return
+				}
+			}
+		}
+	}
 }
+
+// panicVisitor adapts a func to ast.Visitor (the func may panic to abort the walk).
+type panicVisitor struct{ f func(ast.Node) bool }
+
+func (v panicVisitor) Visit(n ast.Node) ast.Visitor {
+	if v.f(n) {
+		return v
+	}
+	return nil
+}
+func (v panicVisitor) VisitMany([]ast.Node) ast.Visitor { return v }
+func (v panicVisitor) Field(string) ast.Visitor         { return v }
+func (v panicVisitor) Index(int) ast.Visitor            { return v }
 
 func multisetDiff(a, b []string) string {
 	m := map[string]int{}
@@ -739,7 +805,7 @@ func c19WalkOrder(roots []ast.Node, many bool, add func(sig, msg string)) {
 	if !many {
 		roots = roots[:1]
 	}
-	c17Check(roots, many, nil, 0, func(sig, msg string) { add("C19 walk-order: "+strings.TrimPrefix(sig, "C17 "), msg) })
+	c17Check(roots, many, nil, 2, func(sig, msg string) { add("C19 walk-order: "+strings.TrimPrefix(sig, "C17 "), msg) })
 }
 
 // c19WalkFields checks, for one instance, that Walk enumerates exactly its node-typed fields in declaration order.
